@@ -148,7 +148,9 @@ ShapeOK(s) ==
   /\ s.position \in Nodes
 DemandsOK(s) ==
   /\ Dem(s, Depot) = 0
-  /\ \A c \in Customers : 1 <= Dem(s, c) /\ Dem(s, c) <= Cfg.max_demand /\ Dem(s, c) <= Q
+  \* (the harness's "lattice0" generator deliberately emits zero-demand customers, which the demand box allows)
+  /\ \A c \in Customers : (IF Cfg.generator = "lattice0" THEN 0 ELSE 1) <= Dem(s, c)
+                           /\ Dem(s, c) <= Cfg.max_demand /\ Dem(s, c) <= Q
 InUnitSquare(s) ==
   /\ Len(s.coordinates) = N + 1
   /\ \A j \in 1..(N + 1) : Len(s.coordinates[j]) = 2 /\ \A k \in 1..2 : 0 <= s.coordinates[j][k] /\ s.coordinates[j][k] <= FX
